@@ -41,6 +41,37 @@ Theorem c10_lookup_precedence : forall (D : Type) (L : layers D) k,
 Proof. exact @lookup_precedence. Qed.
 Print Assumptions c10_lookup_precedence.
 
+(** Presence, not truthiness, decides.  Write the eight layers as a list of
+    mappings in lookup order ([layer_list]: block scopes, locals, render args,
+    matter, template globals, environment globals, {now, today}, counters).
+    If [d] is the first of them that BINDS the name, the lookup returns [d]'s
+    binding — whatever value that is: nil, false, 0, '', [], {} are values
+    like any other ([D] is arbitrary and no lookup inspects a value). *)
+Theorem c10_lookup_first_binder : forall (D : Type) (L : layers D) k pre d post,
+  NoDup (keys (w_tg (l_world L))) ->
+  layer_list L = pre ++ d :: post ->
+  (forall d', In d' pre -> ~ In k (keys d')) ->
+  In k (keys d) ->
+  st_lookup (build L) k = assoc k d /\ exists v, assoc k d = Some v.
+Proof. exact @lookup_first_binder. Qed.
+Print Assumptions c10_lookup_first_binder.
+
+(** A name is undefined exactly when no layer binds it. *)
+Theorem c10_lookup_none_iff_unbound : forall (D : Type) (L : layers D) k,
+  NoDup (keys (w_tg (l_world L))) ->
+  (st_lookup (build L) k = None <-> forall d, In d (layer_list L) -> ~ In k (keys d)).
+Proof. exact @lookup_none_iff_unbound. Qed.
+Print Assumptions c10_lookup_none_iff_unbound.
+
+(** Which layer answers does not depend on the values: replacing every data
+    value through any function [f] (e.g. all of them by one "nil" token) maps
+    every lookup result through [f] and changes nothing else. *)
+Theorem c10_lookup_value_independent : forall (D D' : Type) (f : D -> D') (L : layers D) k,
+  NoDup (keys (w_tg (l_world L))) ->
+  st_lookup (build (map_layers f L)) k = option_map (map_value f) (st_lookup (build L) k).
+Proof. exact @lookup_value_independent. Qed.
+Print Assumptions c10_lookup_value_independent.
+
 (** Precedence along every execution.  For every caller world, every depth
     limit and every program of lookups / assigns / increments / decrements /
     nested extend-blocks (all that tags can do to the chain): each lookup, at
